@@ -2639,8 +2639,8 @@ void Analyser::AnalyserImpl::analyseModel(const ModelPtr &model)
 
     for (const auto &primaryExternalVariable : primaryExternalVariables) {
         std::string description;
-        auto isVoi = (mModel->mPimpl->mVoi != nullptr)
-                     && (primaryExternalVariable.first == mModel->mPimpl->mVoi->variable());
+        auto primaryInternalVariable = Analyser::AnalyserImpl::internalVariable(primaryExternalVariable.first);
+        auto isVoi = primaryInternalVariable->mType == AnalyserInternalVariable::Type::VARIABLE_OF_INTEGRATION;
         auto equivalentVariableCount = primaryExternalVariable.second.size();
         auto hasPrimaryVariable = std::find(primaryExternalVariable.second.begin(),
                                             primaryExternalVariable.second.end(),
@@ -2682,6 +2682,12 @@ void Analyser::AnalyserImpl::analyseModel(const ModelPtr &model)
                 description += " variable of integration which cannot be used as an external variable.";
 
                 referenceRule = Issue::ReferenceRule::ANALYSER_EXTERNAL_VARIABLE_VOI;
+
+                // The variable of integration cannot be used as an external
+                // variable, so make sure that it is not treated as one.
+
+                primaryInternalVariable->mIsExternal = false;
+                primaryInternalVariable->mDependencies.clear();
             } else {
                 description += (equivalentVariableCount == 1) ?
                                    " is marked as an external variable, but it is not a primary variable." :
